@@ -1468,6 +1468,12 @@ static void g_mk_fin(void)
 }
 
 /* --- as: association of an existing unit with another pool --- */
+static int mig_cb_calls;
+static void mig_count_cb(ABT_thread t, void *arg)
+{
+    (void)t, (void)arg;
+    mig_cb_calls++;
+}
 static void g_as_prep(void)
 {
     g_pool = pool_of(P.tgt);
@@ -1501,6 +1507,9 @@ static void g_as_prep(void)
             ABT_thread me;
             OK(ABT_self_get_thread(&me));
             OK(ABT_thread_migrate_to_pool(me, g_pool));
+            /* (registered after the request: the migration data exists already, no allocation is added to the call) */
+            mig_cb_calls = 0;
+            OK(ABT_thread_set_callback(me, mig_count_cb, NULL));
             break;
         }
     }
@@ -1528,6 +1537,11 @@ static int g_as_call(void)
             ABT_pool now = ABT_POOL_NULL;
             ABT_thread_yield();
             ABT_self_get_last_pool(&now);
+            /* the callback belongs to the *performed* migration: none while the re-association has failed, one after */
+            if (now == g_pool && mig_cb_calls != 1)
+                problem("call: the migration was performed and its callback was invoked %d time(s) in all", mig_cb_calls);
+            if (now != g_pool && mig_cb_calls != 0)
+                problem("call: the migration was not performed (the unit is still in its pool) but its callback was invoked %d time(s)", mig_cb_calls);
             return now == g_pool ? ABT_SUCCESS : ABT_ERR_MIGRATION_NA;
         }
     }
@@ -1556,6 +1570,7 @@ static void g_as_fin(void)
             ABT_thread me;
             ABT_pool now = ABT_POOL_NULL;
             OK(ABT_self_get_thread(&me));
+            OK(ABT_thread_set_callback(me, NULL, NULL));
             OK(ABT_thread_migrate_to_pool(me, p_main));
             OK(ABT_thread_yield());
             OK(ABT_self_get_last_pool(&now));
